@@ -12,7 +12,23 @@ import re
 
 import asm_tables as at
 import codec_tables as ct
-from coqemit import lst, z
+from coqemit import lst
+from coqemit import z as _z
+
+# a leaf of implementation output that is not a plain int (e.g. an Immediate nested in an Immediate, None where a
+# number is expected) is shown as "!<repr>" in views and emitted to Coq as a number no real value can equal
+SENTINEL = 10 ** 40 + 7
+
+
+def z(n):
+    if isinstance(n, int) and not isinstance(n, bool):
+        return _z(n)
+    return _z(SENTINEL)
+
+
+def total_leaf(v):
+    return v if isinstance(v, int) and not isinstance(v, bool) else "!" + repr(v)[:80]
+
 
 FLAVS = ["vanilla", "nv", "reids"]
 HEADER = "# NETQASM 1.0\n# APPID 0\n"
@@ -96,11 +112,20 @@ class Impl:
         return self.ir.ProtoSubroutine(commands=cmds, app_id=0)
 
     def view_instr(self, instr):
+        """[class, operand leaves]; TOTAL: whatever the implementation hands back gets a view (a leaf that is not an
+        int, an operand of an unknown shape become "!..." markers that equal no real value)"""
         cls = type(instr)
         name = f"{cls.__module__.split('.')[-1]}.{cls.__name__}"
         flat = []
-        for op in instr.operands:
-            flat.extend(ct.operand_leaves(self.operand, op))
+        try:
+            operands = list(instr.operands)
+        except Exception as e:  # noqa
+            return [name, ["!operands raised " + type(e).__name__]]
+        for op in operands:
+            try:
+                flat.extend(total_leaf(v) for v in ct.operand_leaves(self.operand, op))
+            except Exception:  # noqa  (unknown operand shape, e.g. an entry whose index is not a register)
+                flat.append("!" + repr(op)[:80])
         return [name, flat]
 
     def build_instr(self, fname, name, leaves):
